@@ -28,19 +28,21 @@ type zzFileM struct {
 	defs []zzDef
 }
 
-// y.thrift is a leaf; x.thrift includes y; a.thrift includes x and y (diamond on y).
+// y.thrift and z.thrift are leaves; x.thrift includes z and y (so y sits at index 1 in x while x
+// sits at index 0 in a); a.thrift includes x and y (diamond on y).
 // The same local names (T, E) exist in x and y on purpose.
 func zzModel() []zzFileM {
 	return []zzFileM{
-		{path: "a.thrift", incs: []string{"x.thrift", "y.thrift"}, defs: []zzDef{
+		{path: "a.thrift", incs: []string{"x.thrift", "y.thrift", "z.thrift"}, defs: []zzDef{
 			{kind: "typedef", name: "M", target: "y.S"},
 			{kind: "typedef", name: "N", target: "M"},
+			{kind: "typedef", name: "J", target: "x.O"},
 			{kind: "enum", name: "G", vals: []string{"P", "H"}},
 			{kind: "struct", name: "A"},
 			{kind: "const", name: "D", target: "i32", value: "7"},
 			{kind: "service", name: "W"},
 		}},
-		{path: "x.thrift", incs: []string{"y.thrift"}, defs: []zzDef{
+		{path: "x.thrift", incs: []string{"z.thrift", "y.thrift"}, defs: []zzDef{
 			{kind: "typedef", name: "T", target: "y.T"},
 			{kind: "typedef", name: "U", target: "T"},
 			{kind: "typedef", name: "O", target: "y.E"},
@@ -49,6 +51,9 @@ func zzModel() []zzFileM {
 			{kind: "exception", name: "X"},
 			{kind: "const", name: "K", target: "i32", value: "1"},
 			{kind: "service", name: "V"},
+		}},
+		{path: "z.thrift", defs: []zzDef{
+			{kind: "struct", name: "ZS"},
 		}},
 		{path: "y.thrift", defs: []zzDef{
 			{kind: "typedef", name: "I", target: "i32"},
@@ -314,10 +319,10 @@ func H_SEM_typeref(mode, pos, n int) {
 	} else {
 		zzrt.Assert(t.Reference == nil, "no include reference for a local name")
 	}
-	// include usage: the model uses y (typedef M -> y.S) and never x
-	wantX := want.refName != "" && want.refIndex == 0
-	zzrt.Assert(ast.Includes[0].GetUsed() == wantX, "include x marked used exactly when referred to")
-	zzrt.Assert(ast.Includes[1].GetUsed(), "include y is used by the model")
+	// include usage: the model itself uses x (typedef J -> x.O) and y (typedef M -> y.S), never z
+	wantZ := want.refName != "" && want.refIndex == 2
+	zzrt.Assert(ast.Includes[2].GetUsed() == wantZ, "include z marked used exactly when referred to")
+	zzrt.Assert(ast.Includes[0].GetUsed() && ast.Includes[1].GetUsed(), "includes x and y are used by the model")
 	// Deref ends at the ultimate definition
 	if want.finalFile >= 0 {
 		dast, dt, derr := Deref(ast, t)
@@ -475,11 +480,8 @@ func H_SEM_valref(mode, pos, n int) {
 	zzrt.Assert(cv.Extra.Name == want.name, "bound name")
 	zzrt.Assert(int(cv.Extra.Index) == want.index, "include index of the binding (-1: local)")
 	zzrt.Assert(cv.Extra.Sel == want.sel, "selector")
-	// include x is used exactly when the identifier goes through it by name
-	throughX := want.index == 0 && !(want.isEnum && strings.LastIndex(id, ".") == strings.Index(id, "."))
-	if throughX {
-		zzrt.Assert(ast.Includes[0].GetUsed(), "include marked used by a qualified constant identifier")
-	}
+	// z defines no constant or enum: a bound identifier never goes through it
+	zzrt.Assert(!ast.Includes[2].GetUsed(), "an include that nothing refers to is not marked used")
 }
 
 // ---------------------------------------------------------------------------------------------
